@@ -321,6 +321,19 @@ func c13Check(cs *c13Case, ref vector, plan *simrt.MapPlan, o obsOpts) (*wk.Fail
 	o.order = cs.FileOrder
 	v, res := observeUnder(cs.Bundle, o, plan)
 	if v.Trouble != "" {
+		if ref.Trouble == "" {
+			// the reference observation finished normally: crashing or hanging under another order is a
+			// difference like any other
+			out := *cs
+			if plan != nil {
+				out.MapOrder = plan.Log
+			}
+			if out.MapOrder == nil {
+				out.MapOrder = []simrt.MapDecision{}
+			}
+			b, _ := json.Marshal(&out)
+			return &wk.Failure{Class: "unequal", Site: "crash or hang under another order", Detail: "the compilation finishes under the canonical order and under another legal order it does not: " + v.Trouble, Replay: b}, v, res
+		}
 		return &wk.Failure{Class: "machinery", Detail: v.Trouble}, v, res
 	}
 	comp, detail := diffVectors(ref, v, cs.FileOrder == nil || cs.Bundle.OneError)
